@@ -32,6 +32,9 @@ func rulesC18(c *Ctx) {
 	c.Rule("attempt-context")
 	c07Race(c)
 	c09Loop(c)
+	// "whatever contexts the request and the executor carry": an executor without a context carries
+	// context.Background(), the identity MergeContexts tests
+	c01DefaultContext(c)
 }
 
 func rulesC19(c *Ctx) {
@@ -48,6 +51,7 @@ func rulesC19(c *Ctx) {
 	c09Loop(c)
 	c.Rule("timeout-timer")
 	c07Race(c)
+	c01DefaultContext(c)
 	executeAsyncRule(c)
 	c.Rule("retry-timer")
 	retryLoop(c, map[string]bool{"wait": true})
